@@ -96,9 +96,11 @@ def body(ctx: H.BaseCtx):
             _cmp_arrays(ctx, numpoly.minimum(p, q), numpy.minimum(x, y), "minimum", want_poly=True)
         elif fn == "logic":
             ax = par.get("axis")
-            _cmp_arrays(ctx, numpoly.any(p, axis=ax), numpy.any(x != 0, axis=ax), "any(axis=%s)" % ax)
-            _cmp_arrays(ctx, numpoly.all(p, axis=ax), numpy.all(x != 0, axis=ax), "all(axis=%s)" % ax)
-            _cmp_arrays(ctx, numpoly.count_nonzero(p, axis=ax), numpy.count_nonzero(x != 0, axis=ax), "count_nonzero(axis=%s)" % ax)
+            for kd in (False, True):
+                kw = {"axis": ax, "keepdims": True} if kd else {"axis": ax}
+                _cmp_arrays(ctx, numpoly.any(p, **kw), numpy.any(x != 0, **kw), "any(%s)" % kw)
+                _cmp_arrays(ctx, numpoly.all(p, **kw), numpy.all(x != 0, **kw), "all(%s)" % kw)
+                _cmp_arrays(ctx, numpoly.count_nonzero(p, **kw), numpy.count_nonzero(x != 0, **kw), "count_nonzero(%s)" % kw)
             if y is not None:
                 _cmp_arrays(ctx, numpoly.logical_and(p, q), numpy.logical_and(x != 0, y != 0), "logical_and")
                 _cmp_arrays(ctx, numpoly.logical_or(p, q), numpy.logical_or(x != 0, y != 0), "logical_or")
